@@ -18,7 +18,7 @@ RULE = ('The decompositions of C09 (named sub-specifications through add_sub_spe
         'the output name must equal the result of a stand-alone specification whose text is the formula bound to n (pastified if the '
         'host was), run by the same monitor kind on the same data: the whole signal offline (one value per sample in discrete time), the '
         'value of the current update online. Lane giant: named bounded operators with windows of 200..700 samples, also two of the same kind over different variables. Lane edited: the object was parsed before with a text that binds the same names to other formulas '
-        '(text replaced + parse() again), or both definitions stand in one text (the later one is in force). Non-trivial = a named sub-formula that is temporal and nested >= 2 deep, or operand of a '
+        '(text replaced + parse() again), or both definitions stand in one text (the later one is in force). Lane surplus: one more declared variable that no requirement reads and that every call supplies data for; get_value() of it must return that data. Non-trivial = a named sub-formula that is temporal and nested >= 2 deep, or operand of a '
         'bounded future operator, or referenced twice; distinct = distinct (modular text, data, kind) digests.')
 
 ASSUMPTIONS = [
@@ -33,6 +33,7 @@ def standalone(case, sub):
     c['formula'] = sub
     c['subs'] = []
     c['consts'] = []
+    c['surplus'] = None
     used_host = [v for v in case['vars'] if v in F.fvars(from_json(case['formula']))]
     # the stand-alone spec sees the same update calls: keep the host's chunk boundaries by feeding host variables
     spec = build_modular(c, inline=True)
@@ -110,18 +111,29 @@ def check_lane(case, finding_lane=False):
         labels.append('name-delayed-by-pastifier')
     delayed = {}     # the delayed-input defect is fixed (KNOWN_FINDINGS.txt): every name is compared
     got = {}
+    sur = case.get('surplus')
+    supplied = []
 
     def collect(spec, i):
-        for n in names + ['out'] + used:
+        for n in names + ['out'] + used + ([sur] if sur else []):
             try:
                 got.setdefault(n, []).append(copy.deepcopy(spec.get_value(n)))
             except Exception as e:  # noqa
                 got.setdefault(n, []).append(('exc', type(e).__name__, str(e)[:80]))
     try:
         host = build_modular(case, inline=False)
-        outs = feed(case, host, collect)
+        outs = feed(case, host, collect, supplied)
     except Exception as e:  # noqa
         return DISCARD('host-raises(C09/C17):' + type(e).__name__, labels)
+    if sur:
+        # a declared variable that no requirement reads is an input variable too: the data supplied for it
+        labels.append('surplus-variable')
+        for i, want in enumerate(supplied):
+            g = got[sur][i]
+            if isinstance(g, tuple) and g and g[0] == 'exc':
+                return FAIL('get_value-raises:%s:%s' % (kind, g[1]), describe(case) + '\nget_value(%r) of the declared variable that no requirement reads, after call %d, raised %s: %s; data supplied: %r' % (sur, i, g[1], g[2], want), labels)
+            if g != want:
+                return FAIL('input-value-differs:' + kind, describe(case) + '\nget_value(%r) of the declared variable that no requirement reads, after call %d: %r, data supplied: %r' % (sur, i, g, want), labels)
     ncalls = len(outs)
     desc = describe(case)
     # expected values
@@ -280,6 +292,21 @@ def cand_edited(case):
         yield dict(case, previous=dict(prev, formula=f2, subs=[s for s in prev['subs'] if from_json(s) in st2 and from_json(s) != f2]))
 
 
+def surplus_hosts(tier):
+    """The decompositions with one more declared variable that no requirement reads and that every call supplies data for
+    (somewhere among the other variables of the call)."""
+    from hypothesis import strategies as st
+
+    @st.composite
+    def mk(draw):
+        c = draw(decomposed(draw(st.sampled_from(KINDS)), tier))
+        c['surplus'] = 'spare'
+        c['surplus_pos'] = draw(st.integers(0, 3))
+        return c
+    return mk()
+
+
+LANES.append(Lane('surplus', surplus_hosts, check, 1200, 12000, mod_candidates))
 LANES.append(Lane('edited', edited_hosts, check, 1000, 12000, cand_edited))
 LANES.append(Lane('pastified_delayed', delayed_hosts, check_finding, 800, 8000, mod_candidates))
 
